@@ -19,8 +19,11 @@ def P(rule, quick, thorough, level="exploration", must=None, **kw):
 PROPS = {
     "C03": P("plans = (filter configuration x compliant IdP behaviour x requested URL x follow-up requests inside token lifetime), the index enumerating the boolean "
              "cross product (expires_in present, access-token forwarding, refresh none/static/rotate, aud array, extra members, memory/Redis) with the rest drawn from the seed; "
+             "an eighth of the plans each: RECOVERY (a prelude in which 1-3 seam calls fail - store, Redis half-way through a call, token / key / discovery endpoint, connection refused, "
+             "Envoy giving up, crash - then the faults stop and three browsers must each still be logged in or get through one pass of login, on 1-3 replicas) and STALL (one request's "
+             "discovery or token answer stays outstanding while other browsers log in); "
              "non-trivial = the login completed; distinct = distinct (configuration shape, provider shape, history length)",
-             {"runs": 30000, "budget_s": 25}, {"runs": 400000, "budget_s": 600}, must={"all": ["login-completed", "further-requests-ok"]}),
+             {"runs": 30000, "budget_s": 25}, {"runs": 400000, "budget_s": 600}, must={"all": ["login-completed", "further-requests-ok", "login-completed-after-faults", "logins-completed-while-another-answer-was-outstanding"]}),
     "C09": P("plans = set-up (fresh / expired-refreshable / mid-login session) + a logout task interleaved with 1-2 concurrent checks on the same cookie by the seeded scheduler at "
              "store-call and token-endpoint granularity (uniform and priority policies, IdP latency drawn per plan) + later sequential requests; plus sequential histories with logouts "
              "and logouts whose session removal fails; non-trivial = a logout was answered and at least one check with that cookie returned after it; distinct = canonical event trace + schedule trace",
@@ -135,9 +138,11 @@ MANIFEST_TEXT = {
     "C02": T("deterministic simulation with a Byzantine identity provider (adversarial token grammar) + independent std-lib JOSE re-verification of every bound/stored/forwarded token",
              "Histories mix honest and forged token answers on login and refresh paths; every token handed to SetTokenResponse, every token found in the store afterwards and every forwarded header is "
              "re-verified without jwx (signature under the provider's keys, audience, login nonce, membership in the provider's ledger). Exploration over a 33-production grammar; decides acceptance only for the sampled grammar."),
-    "C03": T("deterministic simulation: seeded configurations x IdP behaviours x URLs, redirect-following browser, bounded-liveness oracle (step budget)",
+    "C03": T("deterministic simulation: seeded configurations x IdP behaviours x URLs, redirect-following browser, bounded-liveness oracle (step budget); recovery after injected faults stop; stalled provider answers",
              "Seeded exploration of the composed login flow (real loader, handler, stores, HTTP client against a strict IdP model) on a fake clock: every run must reach OK in exactly redirect/callback/OK "
-             "with one authorization request, byte-identical return URL and the provider's tokens, and stay OK inside token lifetime. The boolean core of the configuration x provider product is enumerated by index, the rest drawn."),
+             "with one authorization request, byte-identical return URL and the provider's tokens, and stay OK inside token lifetime. The boolean core of the configuration x provider product is enumerated by index, the rest drawn. "
+             "Recovery mode: after a fault-injecting prelude the faults stop and every browser must complete one pass of login (the provider is compliant towards it throughout). Stall mode: a provider answer of another request stays outstanding; "
+             "a real-time watchdog outside the bubble releases it if the login under test makes no progress for 15 s, and the run reports that."),
     "C04": T("deterministic simulation with a seeded scheduler: concurrent logins and crafted callbacks interleaved at store-call / token-endpoint granularity; strict RFC 6749/7636 monitor at the token endpoint",
              "Every token request is judged against the session registry the monitor built from the redirects it saw (state, S256 challenge, redirect URI, client credentials of the session named by the cookie); "
              "a completed login forbids any later exchange under that session. Exploration over schedules and attacker choices."),
